@@ -37,6 +37,7 @@ type Solver struct {
 	tmo      int
 	fbCalls  int
 	nrestart int
+	nrecovered int // restarts whose query was then decided by the fallback solver
 	durModel time.Duration
 	dump     *os.File // verdict queries for cross-solver diff
 }
@@ -166,10 +167,15 @@ func (s *Solver) Check(pc []*Term, extra *Term) string {
 	s.push()
 	s.assert(extra)
 	t0 := time.Now()
+	n0 := s.nrestart
 	r := s.checkSat()
 	s.pop()
 	if r == "unknown" {
 		r = s.fallback(pc, extra)
+		if r != "unknown" {
+			// a hung incremental process whose query the fallback decided costs nothing
+			s.nrecovered += s.nrestart - n0
+		}
 	}
 	if d := os.Getenv("SYMGO_DUMP_SLOW"); d != "" && time.Since(t0) > 3*time.Second {
 		os.WriteFile(fmt.Sprintf("%s/q%d-%s.smt2", d, s.queries, r), []byte(Standalone(pc, extra)), 0o644)
